@@ -21,7 +21,7 @@ theorem tagged_short_is_zero (b0 : Nat) (rest : List Nat) (n : Int) (h : n ≤ (
 
 /-- both dictionary decoders: no load at or beyond `bufferLen` -/
 theorem dict_reads_lt_n (bs : List Nat) (cap : Option Nat) : (dictDec bs cap).1 ≠ .fault := by
-  unfold dictDec
+  unfold dictDec dictDecAux
   split
   · simp
   · have h0 := tgetB_no_fault bs
@@ -33,11 +33,15 @@ theorem dict_reads_lt_n (bs : List Nat) (cap : Option Nat) : (dictDec bs cap).1 
       · simp
       · split
         · simp
-        · have h1 := readEntries_no_fault dsz (bs.drop w)
+        · have hl : (bs.drop w).length = bs.length - w := List.length_drop
+          rw [← hl]
+          have h1 := readEntries_no_fault dsz (bs.drop w)
           split
           · contradiction
           · simp
-          · rename_i d r1 _
+          · rename_i d r1 rem1 hre
+            obtain ⟨hr1, _⟩ := readEntries_rem _ _ _ _ _ hre
+            subst hr1
             have h2 := tgetB_no_fault r1
             split
             · contradiction
@@ -53,14 +57,16 @@ theorem dict_reads_lt_n (bs : List Nat) (cap : Option Nat) : (dictDec bs cap).1 
                     simp only []
                     apply decIdx_no_fault
                     have hp := indexWidth_pos dsz
-                    have hc' : cnt ≤ (r1.drop w2).length / Dict.indexWidth dsz := by omega
-                    exact (Nat.le_div_iff_mul_le hp).mp hc'
+                    have hc' : cnt ≤ (r1.length - w2) / Dict.indexWidth dsz := by omega
+                    have := (Nat.le_div_iff_mul_le hp).mp hc'
+                    simp only [List.length_drop]
+                    exact this
 
 /-- every allocation request is bounded by a constant or by the input size: no hostile count reaches malloc -/
 theorem dict_alloc_bounded (bs : List Nat) (cap : Option Nat) :
     ∀ a ∈ (dictDec bs cap).2, a ≤ 8 * Dict.maxDict ∨ a ≤ 8 * bs.length := by
   intro a ha
-  unfold dictDec at ha
+  unfold dictDec dictDecAux at ha
   split at ha
   · simp at ha
   · split at ha
@@ -74,10 +80,14 @@ theorem dict_alloc_bounded (bs : List Nat) (cap : Option Nat) :
         · simp at ha
         · rename_i hd
           have hdsz : 8 * dsz ≤ 8 * Dict.maxDict := by omega
+          have hl : (bs.drop w).length = bs.length - w := List.length_drop
+          rw [← hl] at ha
           split at ha
           · simp at ha; omega
           · simp at ha; omega
-          · rename_i d r1 hre
+          · rename_i d r1 rem1 hre
+            obtain ⟨hr1, h5⟩ := readEntries_rem _ _ _ _ _ hre
+            subst hr1
             split at ha
             · simp at ha; omega
             · simp at ha; omega
@@ -89,21 +99,17 @@ theorem dict_alloc_bounded (bs : List Nat) (cap : Option Nat) :
                 · split at ha
                   · simp at ha; omega
                   · rename_i hc
-                    have hw2 := tgetB_ok_le _ _ _ hg2
                     have hp := indexWidth_pos dsz
-                    have h3 : cnt ≤ (r1.drop w2).length := by
-                      have : (r1.drop w2).length / Dict.indexWidth dsz ≤ (r1.drop w2).length := Nat.div_le_self _ _
+                    have h3 : cnt ≤ r1.length - w2 := by
+                      have : (r1.length - w2) / Dict.indexWidth dsz ≤ r1.length - w2 := Nat.div_le_self _ _
                       omega
-                    have h4 : (r1.drop w2).length ≤ r1.length := by simp [List.length_drop]
-                    have h5 := readEntries_rest_le _ _ _ _ hre
-                    have h6 : (bs.drop w).length ≤ bs.length := by simp [List.length_drop]
                     unfold allocsOf at ha
                     split at ha <;> simp at ha <;> omega
 
 /-- `varintDictDecodeInto` stores at most `maxValues` elements -/
 theorem dict_out_le_cap (bs : List Nat) (c : Nat) (vs : List Nat) (h : (dictDec bs (some c)).1 = .ok vs) :
     vs.length ≤ c := by
-  unfold dictDec at h
+  unfold dictDec dictDecAux at h
   split at h
   · simp at h
   · split at h
@@ -193,7 +199,7 @@ theorem bitmap_alloc_bounded (bs : List Nat) : ∀ a ∈ (bitmapDec bs).2, a ≤
   split at ha
   · simp at ha
   · match bs with
-    | [] => simp [bitmapBytes] at ha; left; simp [bitmapBytes]; omega
+    | [] => simp at ha; left; simp [bitmapBytes]; omega
     | ty :: r0 =>
       simp only [] at ha
       have hb : (24 : Nat) ≤ bitmapBytes := by decide
@@ -226,7 +232,7 @@ theorem bitmap_alloc_bounded (bs : List Nat) : ∀ a ∈ (bitmapDec bs).2, a ≤
             · simp at ha; omega
 
 /-- the RLE run counter: no load at or beyond `encodedSize`, for any fuel -/
-theorem rle_count_aux_no_fault (fuel : Nat) (bs : List Nat) : runCountAux fuel bs ≠ .fault := by
+theorem rle_count_aux_no_fault (fuel : Nat) (bs : List Nat) : runCountAux fuel bs bs.length ≠ .fault := by
   induction fuel generalizing bs with
   | zero => simp [runCountAux]
   | succ fuel ih =>
@@ -249,9 +255,13 @@ theorem rle_count_aux_no_fault (fuel : Nat) (bs : List Nat) : runCountAux fuel b
         split
         · contradiction
         · simp
-        · split
+        · rename_i v w2 hg2
+          have hw2 := getN_ok_le _ _ _ _ hg2
+          split
           · simp
-          · have := ih (bs.drop (w1 + ‹Nat›))
+          · have hl : (bs.drop (w1 + w2)).length = bs.length - (w1 + w2) := List.length_drop
+            rw [← hl]
+            have := ih (bs.drop (w1 + w2))
             split
             · contradiction
             · simp
